@@ -59,17 +59,17 @@ def Value.denote : Value → Denotation
 
 /-- the three supported date layouts: `t` is `a sep b sep c` with one separator character used
     twice, the fields are a day (1–2 digits), a month (1–2 digits or a month name of the locale) and a
-    year (2 or 4 digits) in ISO order when the first field has four characters, else in the locale's
+    year (2 or 4 digits) in ISO order when the first field is four digits, else in the locale's
     order; the date exists and its serial is in the supported range `1 ..= 2958465`. -/
 def IsDateText (ℓ : Locale) (t : List Char) (serial : Nat) (fmt : List Char) : Prop :=
   ∃ (sep : Char) (p0 p1 p2 dayS monthS yearS dayF monthF yearF : List Char) (day month year : Nat),
     (sep = '/' ∨ sep = '-' ∨ sep = '.') ∧
     t = p0 ++ sep :: p1 ++ sep :: p2 ∧
-    ((utf8Len p0 = 4 ∧ dayS = p2 ∧ monthS = p1 ∧ yearS = p0 ∧ allDigits p1 = true ∧ allDigits p2 = true ∧
+    ((isoYear p0 = true ∧ dayS = p2 ∧ monthS = p1 ∧ yearS = p0 ∧ allDigits p1 = true ∧ allDigits p2 = true ∧
         fmt = ['y', 'y', 'y', 'y'] ++ [sep] ++ monthF ++ [sep] ++ dayF) ∨
-     (utf8Len p0 ≠ 4 ∧ ℓ.dayFirst = true ∧ dayS = p0 ∧ monthS = p1 ∧ yearS = p2 ∧
+     (isoYear p0 = false ∧ ℓ.dayFirst = true ∧ dayS = p0 ∧ monthS = p1 ∧ yearS = p2 ∧
         fmt = dayF ++ [sep] ++ monthF ++ [sep] ++ yearF) ∨
-     (utf8Len p0 ≠ 4 ∧ ℓ.dayFirst = false ∧ dayS = p1 ∧ monthS = p0 ∧ yearS = p2 ∧
+     (isoYear p0 = false ∧ ℓ.dayFirst = false ∧ dayS = p1 ∧ monthS = p0 ∧ yearS = p2 ∧
         fmt = monthF ++ [sep] ++ dayF ++ [sep] ++ yearF)) ∧
     parseDay dayS = some (day, dayF) ∧ parseMonth ℓ monthS = some (month, monthF) ∧
     parseYear yearS = some (year, yearF) ∧
@@ -100,5 +100,29 @@ inductive IsNumberText (ℓ : Locale) (curs : List (List Char)) : List Char → 
   | plain {s n} : IsNumberLit ℓ.dec ℓ.grp (trim s) n →
       IsNumberText ℓ curs s (.num n false false)
         (if n.isSci then .scientific else if n.hasGroups then .grouped n.hasDot else .general)
+
+/-- a date field may contain neither the separator used nor one `parse_date` would prefer to it
+    (`/` before `-` before `.`) -/
+def fieldOk (sep : Char) (f : List Char) : Bool :=
+  !f.contains sep && (sep == '/' || (!f.contains '/' && (sep == '-' || !f.contains '-')))
+
+/-- **a rendering of a date**: `IsDateText` whose three fields are free of the separator (and of
+    the separators `parse_date` prefers) — the renderings a user can type unambiguously.  Used for the
+    completeness direction; every `IsDateRendering` is an `IsDateText`. -/
+def IsDateRendering (ℓ : Locale) (t : List Char) (serial : Nat) (fmt : List Char) : Prop :=
+  ∃ (sep : Char) (p0 p1 p2 dayS monthS yearS dayF monthF yearF : List Char) (day month year : Nat),
+    (sep = '/' ∨ sep = '-' ∨ sep = '.') ∧
+    t = p0 ++ sep :: p1 ++ sep :: p2 ∧
+    fieldOk sep p0 = true ∧ fieldOk sep p1 = true ∧ fieldOk sep p2 = true ∧
+    ((isoYear p0 = true ∧ dayS = p2 ∧ monthS = p1 ∧ yearS = p0 ∧ allDigits p1 = true ∧ allDigits p2 = true ∧
+        fmt = ['y', 'y', 'y', 'y'] ++ [sep] ++ monthF ++ [sep] ++ dayF) ∨
+     (isoYear p0 = false ∧ ℓ.dayFirst = true ∧ dayS = p0 ∧ monthS = p1 ∧ yearS = p2 ∧
+        fmt = dayF ++ [sep] ++ monthF ++ [sep] ++ yearF) ∨
+     (isoYear p0 = false ∧ ℓ.dayFirst = false ∧ dayS = p1 ∧ monthS = p0 ∧ yearS = p2 ∧
+        fmt = monthF ++ [sep] ++ dayF ++ [sep] ++ yearF)) ∧
+    parseDay dayS = some (day, dayF) ∧ parseMonth ℓ monthS = some (month, monthF) ∧
+    parseYear yearS = some (year, yearF) ∧
+    IronCalc.Dates.toSerial ⟨year, month, day⟩ = some (serial : Int) ∧
+    1 ≤ serial ∧ serial ≤ 2958465
 
 end IronCalc.Number
